@@ -391,7 +391,8 @@ static void structure(report& r)
 {
     std::string const base = std::string(vf::type_name<T>()) + " " + vf::engine_name<E>() + " struct";
     if (!r.want_prefix(base.substr(0, std::min(base.size(), r.a().replay_case.size())))) return;
-    std::vector<std::string> const names = {"", " ", "a", " a", "a ", "a b", "#x", "1 2 3", "\t", "  lead  trail  "};
+    std::vector<std::string> const names = {"", " ", "a", " a", "a ", "a b", "#x", "1 2 3", "\t", "  lead  trail  ",
+        "m(e,\\nu_e) [GeV]", "\\n", "\\", "tail\\", "C:\\new\\table", "a\r", "%s %d", "\"quoted\""};
     std::vector<sz> const counters = {0, 1, sz(1) << 32, ~sz(0)};
     std::vector<unsigned> const advances = {0, 1, 7, 1000};
 
